@@ -10,7 +10,7 @@ cases:  ["enc_sdp", P]            -> ["ok", bytes, decoded(P)] | ["error", class
         ["dec_scp", bytes, n]     -> ["ok", Q] | ["error", class]      (n null: the default n_args)
         ["sweep16", field, base Q, lo, hi]     -> digest of the encodings with field = lo..hi-1
         ["sweep16raw", field, base Q, lo, hi, n] -> the encodings themselves (for the oracle)
-        ["sweep16dec", pos, base bytes, lo, hi] -> digest of (cmd_rc, seq) decoded with bytes pos, pos+1 = v
+        ["sweep16dec", pos, base bytes, lo, hi, n] -> digest of the numeric fields decoded with bytes pos, pos+1 = v
 """
 import struct
 
@@ -67,6 +67,20 @@ def digest(h, bs):
     return [a, c]
 
 
+def sweep_packet(base, f, v):
+    """the packet of a sweep: base with field f (an index, or a named group of fields) set from the counter v"""
+    q = list(base)
+    if f == "ports":
+        q[2], q[3], q[4], q[5] = v >> 13, (v >> 8) & 31, (v >> 5) & 7, v & 31
+    elif f == "dest_xy":
+        q[6], q[7] = v >> 8, v & 255
+    elif f == "src_xy":
+        q[8], q[9] = v >> 8, v & 255
+    else:
+        q[f] = v
+    return q
+
+
 def run_case(c):
     k = c[0]
     if k == "enc_sdp":
@@ -81,9 +95,8 @@ def run_case(c):
         return dec(SCPPacket, show_scp, c[1], *([] if c[2] is None else [c[2]]))
     if k == "sweep16":
         h = [0, 0]
-        q = list(c[2])
         for v in range(c[3], c[4]):
-            q[c[1]] = v
+            q = sweep_packet(c[2], c[1], v)
             r = enc(mk_scp(q))
             h = digest(h, r[1] if r[0] == "ok" else [300])
         return ["digest", h]
@@ -92,16 +105,15 @@ def run_case(c):
         bs = list(c[2])
         for v in range(c[3], c[4]):
             bs[c[1]], bs[c[1] + 1] = v & 255, v >> 8
-            r = dec(SCPPacket, show_scp, bs, 3)
-            h = digest(h, r[1][11:13] if r[0] == "ok" else [300])
+            r = dec(SCPPacket, show_scp, bs, c[5])
+            h = digest(h, r[1][1:10] + r[1][11:13] if r[0] == "ok" else [300])
         return ["digest", h]
     if k == "sweep16raw":
         # for the oracle: the encoding (hex) of every packet of the sweep, and True when decoding it with
         # n_args = c[5] gives back exactly the packet (otherwise what decoding gave)
-        q = list(c[2])
         out = []
         for v in range(c[3], c[4]):
-            q[c[1]] = v
+            q = sweep_packet(c[2], c[1], v)
             r = enc(mk_scp(q))
             if r[0] != "ok":
                 out.append(None)
